@@ -141,8 +141,8 @@ def _walk_stmts(ss, slots, stmts):
             for i in range(len(s["es"])): _walk_exprs(s["es"][i], slots, "operand")   # the printed values themselves accept any scalar
 
 
-def mutate(case, rng):
-    """returns (mutated deep copy, description dict with class/label) or None"""
+def mutate(case, rng, kind=None):
+    """returns (mutated deep copy, description dict with class/label) or None; kind forces the class of edit"""
     c = copy.deepcopy(case)
     slots, stmts = [], []
     for f in c.fns:
@@ -150,7 +150,7 @@ def mutate(case, rng):
         if f["res"] is not None:
             slots.append((f, "res", "function-result")); _walk_exprs(f["res"], slots, "function-result")
     _walk_stmts(c.run, slots, stmts)
-    kind = rng.choice(["type", "type", "type", "argcount", "unknown", "unknown", "immutable", "noreturn", "arm", "field"])
+    kind = kind or rng.choice(["type", "type", "type", "argcount", "unknown", "unknown", "immutable", "noreturn", "arm", "field"])
     if kind == "type" and slots:
         cont, key, role = rng.choice(slots)
         old = cont[key]
@@ -198,9 +198,10 @@ def mutate(case, rng):
     if kind == "arm":
         ms = [s for _, s in stmts if s["k"] == "match" and len(s["arms"]) > 1]
         if ms:
-            s = rng.choice(ms)
+            exprs = [s for s in ms if s.get("form")]         # matches standing in expression position first
+            s = rng.choice(exprs if exprs and rng.random() < 0.7 else ms)
             s["arms"].pop(rng.randrange(len(s["arms"])))
-            return c, {"class": "non-exhaustive-match", "where": "match " + s["n"], "label": "maybe"}
+            return c, {"class": "non-exhaustive-match", "where": "match " + s["n"] + (" (" + s["form"] + " form)" if s.get("form") else ""), "label": "maybe"}
     if kind == "field":
         fs = [s for _, s in stmts if s["k"] == "fset"]
         if fs:
